@@ -147,16 +147,42 @@ func (o *Out) Count(k string) { o.Counters[k]++ }
 // class tag) against the real implementation and return its canonical answer.
 var executors = map[string]func(args []string) string{}
 
-// Do executes an op line against the implementation and records it.
+// Do executes an op line against the implementation and records it.  The op line is on disk
+// before the implementation runs: if the process dies inside the operation (a fatal runtime
+// error cannot be recovered), the last op line without an answer is the failing input.
 func (o *Out) Do(class string, op string, nontrivial bool) string {
 	w := strings.Fields(op)
 	ex, ok := executors[w[0]]
 	if !ok {
 		panic("no executor for " + w[0])
 	}
+	if strings.ContainsAny(op, "\n\r") {
+		panic("newline in op")
+	}
+	fmt.Fprintf(o.ops, "%s %s\n", class, op)
+	o.ops.Flush()
 	res := safely(func() string { return ex(w[1:]) })
-	o.Op(class, op, res, nontrivial)
+	o.answer(op, res, nontrivial)
 	return res
+}
+
+func (o *Out) answer(op, impl string, nontrivial bool) {
+	if strings.ContainsAny(impl, "\n\r") {
+		panic("newline in answer")
+	}
+	fmt.Fprintf(o.impl, "%s\n", impl)
+	o.impl.Flush()
+	o.n++
+	if nontrivial {
+		o.distinct[op] = struct{}{}
+	}
+	if len(o.Samples) < 6 && (o.n%97 == 1) {
+		s := op + " => " + impl
+		if len(s) > 400 {
+			s = s[:400] + "…"
+		}
+		o.Samples = append(o.Samples, s)
+	}
 }
 
 // replayOps re-runs the op lines of a file (with or without class tags).
